@@ -123,18 +123,10 @@ theorem old_roots_stable (cfg : Cfg) (db db' : NodeDB) (hsub : Sub db db') (n : 
     load db' fuel top h = load db fuel top h :=
   load_stable cfg db db' hsub n hs hf fuel top h hh hd
 
-/-- full statement aimed at for `save`: saving a hashed tree makes it loadable and keeps every earlier record,
-or the hash function has a collision (content addressing), with no side condition on the records. -/
-def LoadSaveFull : Prop :=
-  ∀ (H : Bytes → Bytes), (∀ x, (H x).length = 32) → ∀ (cfg : Cfg) (n n' : Node) (db db' : NodeDB),
-    C03.Hashed H n → save cfg n db = some (n', db') → PersistedStored cfg db n → FitsRec n →
-    ∀ (root : Bytes), n.info.hk = some root → ∀ (fuel : Nat) (top : Bool), depth n < fuel →
-      (load db' fuel top root = .ok (asLoaded cfg n) ∧ Sub db db' ∧ Stored cfg db' n') ∨ C03.Collision H
-
-/-- **load_save_partial** — `LoadSaveFull` with the added hypothesis `Consistent`: no database key receives two
+/-- **load_save_partial** — `save` then `load` under the hypothesis `Consistent`: no database key receives two
 different records (neither among the records written by this `save`, nor against a record already present).
 Under a fixed configuration without height prefix this is what collision-freeness gives (key = hash of the
-content); deriving it from `¬ Collision H` is left open, and with the height prefix it can genuinely fail for the
+content: `load_save_or_collision` below derives it), and with the height prefix it can genuinely fail for the
 *root* record (same root hash, other child keys — the C02 finding lives there).  Then: the saved tree is read back
 exactly, every earlier record is kept (so `old_roots_stable` applies to all earlier roots), and the returned tree
 is stored. -/
@@ -170,25 +162,31 @@ theorem set_keeps_keyMin (t : Node) (k v : Bytes) (hst : ST t) (hkm : KeyMin t) 
   set_keyMin t k v hst hkm t' u e
 
 /-- **merkle_binding** — two well-formed trees with the same hash have the same content (keys, values, shape,
-stored heights and sizes, inner keys), or the hash function has a collision. -/
+stored heights and sizes, inner keys), or two DIFFERENT strings among those hashed in the two trees
+(`C03.treeTrace`: the leaf and inner-node encodings, an explicit finite list) have the same hash. -/
 theorem merkle_binding {H : Bytes → Bytes} (hlen : ∀ x, (H x).length = 32) (n m : Node)
     (sn : C03.Shape n) (sm : C03.Shape m) (kn : KeyMin n) (km : KeyMin m)
-    (e : C02.pureHash H n = C02.pureHash H m) : C02.erase n = C02.erase m ∨ C03.Collision H :=
+    (e : C02.pureHash H n = C02.pureHash H m) :
+    C02.erase n = C02.erase m ∨ C03.CollisionIn H (C03.treeTrace H n ++ C03.treeTrace H m) :=
   pureHash_inj hlen n m sn sm kn km e
 
 /-- **load_save_or_collision** (full, store without `EnableMavlPrefix`) — `PH H n`: every node of the tree is keyed by the hash of
-its content (what `Node.Hash` does without the prefix: `hashNode_keys_content`); `DBInv`: the database only holds
-records of well-formed nodes under their hashes (kept by `save`, part of the conclusion).  Then `save` makes the
-tree loadable exactly as saved and keeps every earlier record — or the hash function has a collision.
+its content (what `Node.Hash` does without the prefix: `hashNode_keys_content`); `DBInv … W`: every record of the
+database is the record of a well-formed node from the explicit list `W` (the nodes saved so far), under that node's
+hash (kept by `save` for `W ++ subnodes n`, part of the conclusion).  Then `save` makes the tree loadable exactly
+as saved and keeps every earlier record — or two different strings among those hashed in the tree and in the nodes
+of `W` have the same hash (a located collision; the unlocated `∃ x ≠ y, H x = H y` would be true of every
+32-byte-valued function by counting and is not what is stated).
 With the height prefix the statement is false for the *root* record (same root hash, other child keys: the
 mechanism behind the C02 finding); there `load_save_partial` with its explicit `Consistent` stays. -/
 theorem load_save_or_collision {H : Bytes → Bytes} (hlen : ∀ x, (H x).length = 32) (cfg : Cfg) (n n' : Node) (db db' : NodeDB)
+    (W : List Node)
     (hsave : save cfg n db = some (n', db')) (hp : PH H n) (hs : C03.Shape n) (hk : KeyMin n)
-    (hdb : DBInv H cfg db) (hps : PersistedStored cfg db n) (hf : FitsRec n)
+    (hdb : DBInv H cfg db W) (hps : PersistedStored cfg db n) (hf : FitsRec n)
     (fuel : Nat) (top : Bool) (hd : depth n < fuel) :
     (load db' fuel top (C02.pureHash H n) = .ok (asLoaded cfg n) ∧ Sub db db' ∧ Stored cfg db' n' ∧
-      DBInv H cfg db') ∨ C03.Collision H :=
-  load_save_full hlen cfg n n' db db' hsave hp hs hk hdb hps hf fuel top hd
+      DBInv H cfg db' (W ++ subnodes n)) ∨ C03.CollisionIn H (C03.treeTrace H n ++ tracesOf H W) :=
+  load_save_full hlen cfg n n' db db' W hsave hp hs hk hdb hps hf fuel top hd
 
 /-- how `PH` comes about: without the prefix, `Node.Hash` on a tree whose untouched parts are keyed by content
 (`PHoF`, kept by `set`: `set_phoF`) keys every node by the hash of its content and returns the pure hash. -/
@@ -198,7 +196,7 @@ theorem hashNode_keys_content {H : Bytes → Bytes} (cfg : Cfg) (hpf : cfg.pfx =
   ⟨a, b⟩
 
 /-- non-vacuity: the empty database satisfies `DBInv`; a fresh leaf is `PHoF`, `KeyMin`, `Shape`. -/
-example (H : Bytes → Bytes) : DBInv H Cfg.default {} ∧ PHoF H (.leaf [1] [2] Meta.fresh) ∧
+example (H : Bytes → Bytes) : DBInv H Cfg.default {} [] ∧ PHoF H (.leaf [1] [2] Meta.fresh) ∧
     KeyMin (.leaf [1] [2] Meta.fresh) ∧ C03.Shape (.leaf [1] [2] Meta.fresh) :=
   ⟨fun k v h => by simp at h, Or.inl rfl, trivial, trivial⟩
 
